@@ -108,7 +108,11 @@ TPop ==
                   \cup Tag(Full /\ wk[w].sec = "get_workload" /\ wk[w].cand # None /\ (~cfg.cache \/ MustExplore(P.table, wk[w].cand)), "DIV node-dropped-without-reason"))
   /\ Same /\ UNCHANGED <<fired, primalMax>>
 TPopNone == /\ Ev("pop_none") /\ devs' = Add(devs, Tag(P.fringe # EmptyBag, "C11 lost-items")) /\ Same /\ UNCHANGED <<P, wk, fired, primalMax>>
-TFClear == /\ Ev("fclear") /\ P' = [P EXCEPT !.fringe = EmptyBag] /\ Same /\ UNCHANGED <<wk, fired, primalMax, devs>>
+\* the fringe is emptied legitimately when the best open node cannot beat the incumbent (then none can) or when the search is aborted;
+\* emptying it while it holds a node whose bound exceeds the incumbent throws away a part of the search space that may hold the optimum
+TFClear == /\ Ev("fclear") /\ P' = [P EXCEPT !.fringe = EmptyBag]
+           /\ devs' = Add(devs, Tag(~fired /\ ~P.abort /\ \E x \in BagToSet(P.fringe) : x.ub > P.bestLb, "C03 open-nodes-discarded"))
+           /\ Same /\ UNCHANGED <<wk, fired, primalMax>>
 
 \* ------------------------------------------------------------------ outcome of get_workload
 TWorkload ==
